@@ -20,6 +20,7 @@ CONSTANTS Modern,      \* the version has checksummed segments (v5)
           Auth,        \* the server demands authentication
           Rig,         \* "lib-lib" | "lib-raw" | "raw-lib"
           NReq,        \* requests per session
+          Faults,      \* fault kinds injected (C16): subset of {"close-client", "close-server", "cancel", "drop"}; {} = none
           BigFrames    \* numbers of the requests (raw client) / responses (raw server) whose envelope is larger than
                        \* one segment; the library never sends such envelopes (it cannot split), it only receives them
 
@@ -147,7 +148,16 @@ ClientRead ==
     /\ Log([a |-> "c-read"])
     /\ UNCHANGED <<phase, cmodern, smodern, c2s, sacc, reqSent, reqGot, rspSent>>
 
-Next == ClientStartup \/ ServerAnswerStartup \/ ClientReadAnswer \/ ServerAuthSuccess \/ ClientReadAuthSuccess
+(* C16: a fault may strike between any two steps; afterwards nothing more is exchanged.  What must hold then is  *)
+(* checked on the real connections by the harness: every request still awaiting a response is completed with  *)
+(* an error, blocked receivers return, later sends are refused, Close returns, no goroutine survives.          *)
+Fault(kind) ==
+    /\ phase # "closed"
+    /\ phase' = "closed"
+    /\ Log([a |-> "fault", kind |-> kind])
+    /\ UNCHANGED <<cmodern, smodern, c2s, s2c, cacc, sacc, reqSent, reqGot, rspSent, rspGot>>
+
+Next == (\E kind \in Faults : Fault(kind)) \/ ClientStartup \/ ServerAnswerStartup \/ ClientReadAnswer \/ ServerAuthSuccess \/ ClientReadAuthSuccess
         \/ (\E k \in 1..2 : ClientSend(k)) \/ ServerRead \/ (\E k \in 1..2 : ServerSend(k)) \/ ClientRead
 
 Spec == Init /\ [][Next]_vars
@@ -171,6 +181,9 @@ ModesAgree == phase = "done" => cmodern = Modern /\ smodern = Modern
 Quiescent == c2s = <<>> /\ s2c = <<>>
 AllArrive == Quiescent => reqGot = reqSent /\ rspGot = rspSent /\ cacc = <<>> /\ sacc = <<>>
 
-Finished == phase = "done" /\ Len(reqSent) = NReq /\ Len(rspSent) = NReq /\ Quiescent
+Finished == \/ phase = "done" /\ Len(reqSent) = NReq /\ Len(rspSent) = NReq /\ Quiescent
+            \/ phase = "closed"
+\* requests the client application is still waiting on when the fault strikes
+Pending == {r \in 1..NReq : r \in {reqSent[i] : i \in 1..Len(reqSent)} /\ r \notin {rspGot[i] : i \in 1..Len(rspGot)}}
 Emit == Finished => PrintT(<<"SESSION", ToJson([steps |-> hist])>>)
 =============================================================================
